@@ -73,7 +73,7 @@ theorem terminates_partial {s s' : Sys} {ls : List Label} (hr : Reach s) (ht : t
 
 /-- The s2c reader has taken a WINDOW_UPDATE that releases 16 frames queued in the c2s relay and holds
     the c2s `flowMu`; the client's EOF is waiting in `frameReady` of the c2s reader. -/
-def f10cStart : Sys := { c := { r := .selReady .eof }, s := { r := .pushing .c2s 16 false } }
+def f10cStart : Sys := { c := { r := .selReady .eof, fmu := some .s2c }, s := { r := .pushing .c2s 16 false } }
 
 def f10cPrefix : List Label :=
   [.deliver .s2c (.frame (.peer 16)), .rTake .s2c, .acquire .s2c, .deliver .c2s .eof]
@@ -83,7 +83,7 @@ def f10cSchedule : List Label :=
   [.rTake .c2s, .handshake .c2s] ++ List.replicate 15 (.push .s2c) ++ [.watchDone]
 
 def f10cEnd : Sys :=
-  { c := { r := .gone, out := 15 }, s := { r := .pushing .c2s 1 false }, done := true, watcher := false }
+  { c := { r := .gone, out := 15, fmu := some .s2c }, s := { r := .pushing .c2s 1 false }, done := true, watcher := false }
 
 theorem f10c_start_reachable : Reach f10cStart :=
   reach_exec (ls := f10cPrefix) Reach.init (by decide)
@@ -106,7 +106,7 @@ theorem terminates_counterexample : ¬ Terminates := by
 /-- Once `Proxy` has returned it stays returned. -/
 theorem returned_is_stable {s s' : Sys} {l : Label} (hr : s.returned = true) (h : step s l = some s') :
     s'.returned = true := by
-  obtain ⟨⟨cr, cw, cf, co, ce, cl, cs, cx, cm⟩, ⟨sr, sw, sf, so, se, sl, ss, sx, sm⟩, dn, clg, wt, rt, scc, ccc⟩ := s
+  obtain ⟨⟨cr, cw, cf, co, ce, cl, cs, cx, cm, cq⟩, ⟨sr, sw, sf, so, se, sl, ss, sx, sm, sq⟩, dn, clg, wt, rt, scc, ccc⟩ := s
   step_cases (simp_all)
 
 /-- When `Proxy` has returned, the upstream connection it dialled is closed and both relays
